@@ -319,9 +319,11 @@ class TCPPacketGenerator(Device, OutMixIn):
         if ackno == self.last_ack:
             self.dupack += 1
         else:
-            # fast recovery
             if self.dupack > 0:
-                self.congestion_control.dupack_over()
+                # fast recovery ends: the window was only inflated if fast
+                # retransmit took place, i.e. from the third duplicate on
+                if self.dupack >= 3:
+                    self.congestion_control.dupack_over()
                 self.dupack = 0
 
         if self.dupack == 3:
